@@ -449,7 +449,7 @@ func checkDeliverLoop(c *Ctx, r *Rep, rule string, caller, del *ssa.Function) {
 		okExit := false
 		if len(e[1].Instrs) > 0 {
 			for _, in := range e[1].Instrs {
-				if ret, ok := in.(*ssa.Return); ok && !returnsNilError(ret) {
+				if ret, ok := in.(*ssa.Return); ok && !returnsNilError(ret) && !mayReturnNilError(ret) {
 					okExit = true
 				}
 			}
